@@ -20,6 +20,7 @@ const char* const counter_names[] = {
 };
 
 Shm* g_shm = nullptr;
+uint64_t g_run_index = 0;
 std::vector<KnownFinding> g_known;
 
 // ---------------------------------------------------------------- text helpers
